@@ -6,9 +6,20 @@ import (
 )
 
 var (
-	jsonBrace         = []byte(`""`)
 	ErrInvalidInt64Js = errors.New(`int64 invalid string`)
 )
+
+// jsText returns the text carried by a JSON scalar token: the content of a string
+// token ("123" -> 123), or the token itself when it is not quoted (a bare number).
+// Only a real pair of quotes is removed, so no byte of a bare token is ever dropped.
+// The second result is false when there is no text at all.
+func jsText(b []byte) (string, bool) {
+	lb := len(b)
+	if lb >= 2 && b[0] == '"' && b[lb-1] == '"' {
+		b = b[1 : lb-1]
+	}
+	return string(b), len(b) > 0
+}
 
 // JsInt64
 // json could not support large number
